@@ -544,6 +544,7 @@ func (e *Exec) builtin(b *ssa.Builtin, args []Value, in *ssa.Call) Value {
 			panic(e.panicEnd(in, "close of closed channel"))
 		}
 		c.c.closed = true
+		e.rel(e.cur, c.c)
 		return nil
 	case "min", "max":
 		a, bb := args[0].(*Term), args[1].(*Term)
@@ -659,10 +660,17 @@ func (e *Exec) keyEq(a, b Value) *Term {
 	return e.valEq(a, b, nil)
 }
 
+func (e *Exec) accessMap(m *MapObj, write bool) {
+	if e.raceOn && m != nil {
+		e.access(Ptr{obj: &Object{id: -m.id, tag: "map"}}, write)
+	}
+}
+
 func (e *Exec) mapGet(m *MapObj, k Value) (Value, bool) {
 	if m == nil {
 		return nil, false
 	}
+	e.accessMap(m, false)
 	for _, en := range m.entries {
 		if e.branch(e.keyEq(en.k, k)) {
 			return en.v, true
@@ -672,6 +680,7 @@ func (e *Exec) mapGet(m *MapObj, k Value) (Value, bool) {
 }
 
 func (e *Exec) mapSet(m *MapObj, k, v Value) {
+	e.accessMap(m, true)
 	for i, en := range m.entries {
 		if e.branch(e.keyEq(en.k, k)) {
 			m.entries[i].v = v
@@ -682,6 +691,7 @@ func (e *Exec) mapSet(m *MapObj, k, v Value) {
 }
 
 func (e *Exec) mapDelete(m *MapObj, k Value) {
+	e.accessMap(m, true)
 	for i, en := range m.entries {
 		if e.branch(e.keyEq(en.k, k)) {
 			m.entries = append(m.entries[:i:i], m.entries[i+1:]...)
@@ -702,6 +712,7 @@ func (e *Exec) rangeStart(x Value) Value {
 	switch x := x.(type) {
 	case MapV:
 		it := &rangeIter{}
+		e.accessMap(x.m, false)
 		if x.m != nil {
 			it.m = append(it.m, x.m.entries...)
 		}
